@@ -444,118 +444,165 @@ def plainOut (cfg : Config) (resp : Resp) (ai : Header) (statusOverride : Option
   let status := statusOverride.getD resp.status
   if status = 304 then { status := 304, header := h } else { status := status, header := h, writes := plainBody resp }
 
+/-- what `cache.Get` hands to `cachingFunc` for the request's key list (caching.go:178-339 with the
+    lock table empty): the disk after `storage.Get`'s clean-up, and the decision -/
+inductive Lookup where
+  /-- run-time panic inside `decodeStorageMetadata` or the ETag comparison -/
+  | panic
+  /-- `Found`, `Metadata.Status = 304` -/
+  | notModified (s : Stored)
+  /-- `Found` with a reader; `stale` = `IsStale` -/
+  | serve (s : Stored) (age : Int) (stale : Bool)
+  /-- `NotFoundWriter` (`none`) or `RevalidatingWriter` for the entry found under `k` -/
+  | writer (reval : Option (Key × Stored × Int))
+  deriving Repr
+
+def entryOf (s : Stored) : Freshness.Entry :=
+  { header := s.meta.respHeader, created := s.meta.created, revalidated := s.meta.revalidated }
+
+def lookup (cfg : Config) (now : Int) (keys : List Key) (d : Disk) (client : Header) (skipRevalidate : Bool) :
+    Disk × Lookup :=
+  match storageGet d keys with
+  | (d', .panic _) => (d', .panic)
+  | (d', .notFound) => (d', .writer none)
+  | (d', .found k s) =>
+    -- cache.Get's decision for a stored entry (caching.go:202-290)
+    match Freshness.decide (entryOf s) now cfg.force skipRevalidate
+        (client.get b!"if-none-match") (client.get b!"if-modified-since") cfg.sfx with
+    | .panic _ => (d', .panic)
+    | .ok .notModified304 => (d', .notModified s)
+    | .ok (.fresh age) => (d', .serve s age false)
+    | .ok (.staleServe age) => (d', .serve s age true)
+    | .ok (.revalidate _ age) => (d', .writer (some (k, s, age)))
+
+/-- the outcome of ONE activation of `cachingFunc`: an answer, or a re-entry of `cachingFunc` with a
+    new disk, client header, alwaysInclude map and `skipRevalidate` (server.go:395, server.go:418) -/
+inductive Step where
+  | done (a : Ans)
+  | reenter (disk : Disk) (client ai : Header) (skipRevalidate : Bool) (contacts : List Contact) (tag : String)
+
+/-- stream op `A`: where the client goes away -/
+def cancelAtOf (origin : Bytes → Option Origin) (req : Request) : Option Nat :=
+  if req.abort then (origin req.path).bind fun o => if o.body.length ≥ 8 then some (o.body.length / 2) else none else none
+
+/-- one contact with the origin (`none`: the performer's watchdog refuses it) -/
+def ask (cfg : Config) (origin : Bytes → Option Origin) (req : Request) (cs : List Contact) (h : Header) : Option Resp :=
+  if cs.length ≥ cfg.contactLimit then none
+  else (origin req.path).map fun o => originAnswer o req.method h (cancelAtOf origin req)
+
+/-- the performer's log; a refused contact is not in it -/
+def logged (cfg : Config) (cs : List Contact) (h : Header) : List Contact :=
+  if cs.length ≥ cfg.contactLimit then cs else cs ++ [contactOf h]
+
+/-- the writer rows of `cachingFunc` (server.go:283-478): NotFoundWriter (nothing stored) or
+    RevalidatingWriter (`reval` = the key it was found under, the entry, its age) -/
+def writerRow (cfg : Config) (origin : Bytes → Option Origin) (now : Int) (req : Request)
+    (keys : List Key) (rr : Option Range.ReqRange) (d : Disk) (client ai : Header) (cs : List Contact)
+    (reval : Option (Key × Stored × Int)) : Step :=
+  let shouldSkip := (client.get b!"authorization").length > 0
+  let key : Key := match reval with
+    | some (k, _, _) => k
+    | none => match notFoundPreferredKey keys with | .ok k => k | .panic _ => keys.headD ⟨[], [], [], false, []⟩
+  let w : Writer := { key := key, path := keyString key, revalidating := reval.isSome, diskWritesDisabled := shouldSkip }
+  let storedHdr : Header := match reval with | some (_, s, _) => s.meta.respHeader | none => []
+  let sg := Conditional.surgery (if reval.isSome then .revalidating else .notFound) rr.isSome client storedHdr
+  let resp? := ask cfg origin req cs sg.req
+  let cs := logged cfg cs sg.req
+  match resp? with
+  | none => .done { disk := d, out := errorJSON 502 b!"Destination unreachable", contacts := cs, label := "w:err" }
+  | some resp =>
+    -- server.go:371-380
+    let (early416, statusOverride, ai) :=
+      if rr.isSome ∧ resp.status = 200 then
+        let (s2, set) := Range.setRangedHeaders rr resp.contentLength 200
+        if s2 ≥ 400 then (some s2, none, ai) else (none, some s2, withRange ai set)
+      else (none, none, ai)
+    match early416 with
+    | some s2 => .done { disk := d, out := { status := s2 }, contacts := cs, label := "w:416" }
+    | none =>
+    let dirs := getCacheControlDirectives resp.header
+    let client1 := if sg.used.length > 0 then sg.req.del sg.used else sg.req
+    if sg.used.length > 0 ∧ resp.status = 304 ∧ !dirs.doNotCache then
+      -- the row `w:304`: SetRevalidatedAndClose, restore the client's validator, re-enter
+      let (d1, ok) :=
+        if w.diskWritesDisabled then (d, true)
+        else republish d w now (some (Conditional.dropZeroContentLength resp.header))
+      if !ok then .done { disk := d1, out := { status := 500 }, contacts := cs, label := "w:304-closeerr" }
+      else
+        let client2 := if sg.clientKey.length > 0 ∧ sg.clientVal.length > 0 then client1.set sg.clientKey sg.clientVal else client1
+        .reenter d1 client2 (ai.set kStatus b!"revalidated") false cs "w:304>"
+    else if dirs.doNotCache then
+      -- the row `w:uncacheable` (any status, a 304 included): plain stack, the entry stays as it is
+      .done { disk := d, out := plainOut cfg resp (ai.set kStatus b!"uncacheable") statusOverride, contacts := cs, label := "w:uncacheable" }
+    else
+      let staleIfError : Bool := match reval with
+        | some (_, s, age) => decide (resp.status ≥ 400) && (getCacheControlDirectives s.meta.respHeader).canStaleIfError age
+        | none => false
+      if staleIfError then
+        -- the row `w:stale`: SetRevalidateErroredAndClose (the entry is untouched), re-enter with skipRevalidate
+        .reenter d client1 (ai.set kStatus b!"stale") true cs "w:stale>"
+      else
+        let ai := ai.set kStatus (if reval.isSome then b!"revalidated" else b!"miss")
+        let ai := if shouldSkip then ai.set kStatus b!"pass" else ai
+        let ai := ai.set b!"Age" b!"0"
+        -- Vary: Origin re-keying (server.go:457-467)
+        let (d, w) :=
+          if dirs.varyByOrigin ∧ key.hasOpaqueOrigin then
+            keys.foldl (fun (acc : Disk × Writer) k => if k.hasFullOrigin then changeKey acc.1 acc.2 k else acc) (d, w)
+          else (d, w)
+        if shouldSkip then
+          .done { disk := d, out := plainOut cfg resp (ai.set kStatus b!"pass") statusOverride, contacts := cs, label := "w:pass" }
+        else
+          -- requestHandler on the caching stack
+          let h := Conditional.suffixETag cfg.sfx (Conditional.copyHeaders resp.header ai)
+          let status := statusOverride.getD resp.status
+          if status = 304 then
+            .done { disk := d, out := { status := 304, header := h }, contacts := cs, label := "w:client304" }
+          else
+            let redirect : Bytes := []
+            let fr := cachingFill cfg d w now status h resp redirect rr
+            .done { disk := fr.disk, out := { status := status, header := h, writes := oneWrite fr.toClient }, contacts := cs, label := fr.label }
+
+/-- the key list of a request (`caching.KeysFromRequest` on the rule-rewritten request) -/
+def keysOf (cfg : Config) (req : Request) (client : Header) : List Key :=
+  keysFromRequest { method := req.method, host := cfg.host, uri := req.uri, header := client }
+
+/-- one activation of `cachingFunc` (server.go:94-478) -/
+def stepOnce (cfg : Config) (origin : Bytes → Option Origin) (now : Int) (req : Request)
+    (d : Disk) (client ai : Header) (skipRevalidate : Bool) (cs : List Contact) : Step :=
+  if req.method ≠ b!"GET" ∧ req.method ≠ b!"HEAD" then
+    -- the uncached row `u:pass` (server.go:112-150)
+    match ask cfg origin req cs client with
+    | none => .done { disk := d, out := errorJSON 502 b!"Destination unreachable", contacts := logged cfg cs client, label := "u:err" }
+    | some resp =>
+      .done { disk := d, out := plainOut cfg resp (ai.set kStatus b!"pass") none, contacts := logged cfg cs client, label := "u:pass" }
+  else
+  let keys := keysOf cfg req client
+  let rr := Range.getRange client
+  match lookup cfg now keys d client skipRevalidate with
+  | (d, .panic) => .done { disk := d, out := { wrote := false }, contacts := cs, label := "g:panic" }
+  | (d, .notModified s) =>
+    -- the row `f:304`
+    let h := Conditional.suffixETag cfg.sfx
+      (Conditional.copyHeaders (Conditional.allow304 s.meta.respHeader) (ai.set kStatus b!"hit"))
+    .done { disk := d, out := { status := 304, header := h }, contacts := cs, label := "f:304" }
+  | (d, .serve s age stale) =>
+    let (o, l) := foundHit cfg s age stale ai rr
+    .done { disk := d, out := o, contacts := cs, label := if stale then l ++ ":stale" else l }
+  | (d, .writer reval) => writerRow cfg origin now req keys rr d client ai cs reval
+
+/-- the answer to one request; `fuel` bounds the re-entries of `cachingFunc` after a 304 and after
+    stale-if-error (the code has no counter of its own; `Props.SysCache.fuel_two_suffices` proves that
+    two activations always suffice) -/
 def cachingFunc (cfg : Config) (origin : Bytes → Option Origin) (now : Int) (req : Request) :
     Nat → Disk → Header → Header → Bool → List Contact → Ans
   | 0, d, _, _, _, cs => { disk := d, out := { wrote := false }, contacts := cs, label := "fuel" }
   | fuel + 1, d, client, ai, skipRevalidate, cs =>
-    let shouldSkip := (client.get b!"authorization").length > 0
-    let cancelAt : Option Nat :=
-      if req.abort then (origin req.path).bind fun o => if o.body.length ≥ 8 then some (o.body.length / 2) else none else none
-    let ask (h : Header) : Option Resp :=
-      if cs.length ≥ cfg.contactLimit then none else (origin req.path).map fun o => originAnswer o req.method h cancelAt
-    -- a refused contact is not in the performer's log
-    let logged (h : Header) : List Contact := if cs.length ≥ cfg.contactLimit then cs else cs ++ [contactOf h]
-    if req.method ≠ b!"GET" ∧ req.method ≠ b!"HEAD" then
-      -- the uncached row `u:pass` (server.go:112-150)
-      match ask client with
-      | none => { disk := d, out := errorJSON 502 b!"Destination unreachable", contacts := logged client, label := "u:err" }
-      | some resp =>
-        { disk := d, out := plainOut cfg resp (ai.set kStatus b!"pass") none, contacts := logged client, label := "u:pass" }
-    else
-    let keys := keysFromRequest { method := req.method, host := cfg.host, uri := req.uri, header := client }
-    let rr := Range.getRange client
-    match storageGet d keys with
-    | (d, .panic _) => { disk := d, out := { wrote := false }, contacts := cs, label := "g:panic" }
-    | (d, res) =>
-      -- cache.Get's decision for a stored entry (caching.go:202-290)
-      let decision : Option (Key × Stored × Res Freshness.Decision) :=
-        match res with
-        | .found k s =>
-          some (k, s, Freshness.decide { header := s.meta.respHeader, created := s.meta.created, revalidated := s.meta.revalidated }
-            now cfg.force skipRevalidate (client.get b!"if-none-match") (client.get b!"if-modified-since") cfg.sfx)
-        | _ => none
-      match decision with
-      | some (_, _, .panic _) => { disk := d, out := { wrote := false }, contacts := cs, label := "g:panic" }
-      | some (_, s, .ok .notModified304) =>
-        -- the row `f:304`
-        let h := Conditional.suffixETag cfg.sfx
-          (Conditional.copyHeaders (Conditional.allow304 s.meta.respHeader) (ai.set kStatus b!"hit"))
-        { disk := d, out := { status := 304, header := h }, contacts := cs, label := "f:304" }
-      | some (_, s, .ok (.fresh age)) =>
-        let (o, l) := foundHit cfg s age false ai rr
-        { disk := d, out := o, contacts := cs, label := l }
-      | some (_, s, .ok (.staleServe age)) =>
-        let (o, l) := foundHit cfg s age true ai rr
-        { disk := d, out := o, contacts := cs, label := l ++ ":stale" }
-      | dec =>
-        -- writer rows: NotFoundWriter (nothing stored) or RevalidatingWriter
-        let reval : Option (Key × Stored × Int) := match dec with
-          | some (k, s, .ok (.revalidate _ age)) => some (k, s, age)
-          | _ => none
-        let key : Key := match reval with
-          | some (k, _, _) => k
-          | none => match notFoundPreferredKey keys with | .ok k => k | .panic _ => keys.headD ⟨[], [], [], false, []⟩
-        let w : Writer := { key := key, path := keyString key, revalidating := reval.isSome, diskWritesDisabled := shouldSkip }
-        let storedHdr : Header := match reval with | some (_, s, _) => s.meta.respHeader | none => []
-        let sg := Conditional.surgery (if reval.isSome then .revalidating else .notFound) rr.isSome client storedHdr
-        let resp? := ask sg.req
-        let cs := logged sg.req
-        match resp? with
-        | none => { disk := d, out := errorJSON 502 b!"Destination unreachable", contacts := cs, label := "w:err" }
-        | some resp =>
-          -- server.go:371-380
-          let (early416, statusOverride, ai) :=
-            if rr.isSome ∧ resp.status = 200 then
-              let (s2, set) := Range.setRangedHeaders rr resp.contentLength 200
-              if s2 ≥ 400 then (some s2, none, ai) else (none, some s2, withRange ai set)
-            else (none, none, ai)
-          match early416 with
-          | some s2 => { disk := d, out := { status := s2 }, contacts := cs, label := "w:416" }
-          | none =>
-          let dirs := getCacheControlDirectives resp.header
-          let client1 := if sg.used.length > 0 then sg.req.del sg.used else sg.req
-          if sg.used.length > 0 ∧ resp.status = 304 ∧ !dirs.doNotCache then
-            -- the row `w:304`: SetRevalidatedAndClose, restore the client's validator, re-enter
-            let (d1, ok) :=
-              if w.diskWritesDisabled then (d, true)
-              else republish d w now (some (Conditional.dropZeroContentLength resp.header))
-            if !ok then { disk := d1, out := { status := 500 }, contacts := cs, label := "w:304-closeerr" }
-            else
-              let client2 := if sg.clientKey.length > 0 ∧ sg.clientVal.length > 0 then client1.set sg.clientKey sg.clientVal else client1
-              let a := cachingFunc cfg origin now req fuel d1 client2 (ai.set kStatus b!"revalidated") false cs
-              { a with label := "w:304>" ++ a.label }
-          else if dirs.doNotCache then
-            -- the row `w:uncacheable` (any status, a 304 included): plain stack, the entry stays as it is
-            { disk := d, out := plainOut cfg resp (ai.set kStatus b!"uncacheable") statusOverride, contacts := cs, label := "w:uncacheable" }
-          else
-            let staleIfError : Bool := match reval with
-              | some (_, s, age) => decide (resp.status ≥ 400) && (getCacheControlDirectives s.meta.respHeader).canStaleIfError age
-              | none => false
-            if staleIfError then
-              -- the row `w:stale`: SetRevalidateErroredAndClose (the entry is untouched), re-enter with skipRevalidate
-              let a := cachingFunc cfg origin now req fuel d client1 (ai.set kStatus b!"stale") true cs
-              { a with label := "w:stale>" ++ a.label }
-            else
-              let ai := ai.set kStatus (if reval.isSome then b!"revalidated" else b!"miss")
-              let ai := if shouldSkip then ai.set kStatus b!"pass" else ai
-              let ai := ai.set b!"Age" b!"0"
-              -- Vary: Origin re-keying (server.go:457-467)
-              let (d, w) :=
-                if dirs.varyByOrigin ∧ key.hasOpaqueOrigin then
-                  keys.foldl (fun (acc : Disk × Writer) k => if k.hasFullOrigin then changeKey acc.1 acc.2 k else acc) (d, w)
-                else (d, w)
-              if shouldSkip then
-                { disk := d, out := plainOut cfg resp (ai.set kStatus b!"pass") statusOverride, contacts := cs, label := "w:pass" }
-              else
-                -- requestHandler on the caching stack
-                let h := Conditional.suffixETag cfg.sfx (Conditional.copyHeaders resp.header ai)
-                let status := statusOverride.getD resp.status
-                if status = 304 then
-                  { disk := d, out := { status := 304, header := h }, contacts := cs, label := "w:client304" }
-                else
-                  let redirect : Bytes := []
-                  let fr := cachingFill cfg d w now status h resp redirect rr
-                  { disk := fr.disk, out := { status := status, header := h, writes := oneWrite fr.toClient }, contacts := cs, label := fr.label }
+    match stepOnce cfg origin now req d client ai skipRevalidate cs with
+    | .done a => a
+    | .reenter d' client' ai' skip' cs' tag =>
+      let a := cachingFunc cfg origin now req fuel d' client' ai' skip' cs'
+      { a with label := tag ++ a.label }
 
 /-- re-entries per request the driver allows the model (the code has no bound; the harness's
     performer refuses the 301st contact) -/
